@@ -460,6 +460,8 @@ impl Writer {
         );
 
         // Phase 3: Atomic submission
+        #[cfg(walrus_verif)]
+        crate::wal::verif::io_event("uring_submit");
         match ring.submit_and_wait(write_plan.len()) {
             Ok(_) => {
                 let mut all_success = true;
